@@ -7,6 +7,7 @@ SPDX-License-Identifier: Apache-2.0
 package doccomposer
 
 import (
+	"bytes"
 	"encoding/json"
 	"fmt"
 	"strconv"
@@ -154,6 +155,10 @@ func applyJSONOperation(docBytes []byte, op json.RawMessage) (result []byte, err
 		}
 	}
 
+	if kind == "test" {
+		return applyJSONTest(docBytes, fields)
+	}
+
 	steps := []interface{}{op}
 
 	if kind == "move" || kind == "copy" {
@@ -194,6 +199,43 @@ func applyJSONOperation(docBytes []byte, op json.RawMessage) (result []byte, err
 	}
 
 	return jsonPatch.Apply(docBytes)
+}
+
+// applyJSONTest evaluates a 'test' operation: the value at 'path' has to be equal to 'value' (RFC 6902, section 4.6).
+// The JSON patch library takes an object for equal to every object that contains its members.
+func applyJSONTest(docBytes []byte, fields map[string]json.RawMessage) ([]byte, error) {
+	var path string
+
+	if err := json.Unmarshal(fields["path"], &path); err != nil {
+		return nil, fmt.Errorf("jsonpatch test operation requires path: %w", err)
+	}
+
+	target, err := getJSONPointerValue(docBytes, path)
+	if err != nil {
+		return nil, fmt.Errorf("jsonpatch test operation does not apply: %w", err)
+	}
+
+	expected, ok := fields["value"]
+	if !ok {
+		expected = json.RawMessage("null")
+	}
+
+	// values are compared in canonical form, wrapped into an array since the canonical form is defined for containers
+	targetBytes, err := canonicalizer.MarshalCanonical([]json.RawMessage{target})
+	if err != nil {
+		return nil, err
+	}
+
+	expectedBytes, err := canonicalizer.MarshalCanonical([]json.RawMessage{expected})
+	if err != nil {
+		return nil, err
+	}
+
+	if !bytes.Equal(targetBytes, expectedBytes) {
+		return nil, fmt.Errorf("testing value %s failed", path)
+	}
+
+	return docBytes, nil
 }
 
 // getJSONPointerValue returns the value that the JSON pointer (RFC 6901) refers to.
